@@ -335,9 +335,42 @@ func (w *Workspace) refreshIncludeTreeLocked() {
 		reachable := w.computeReachableLocked()
 		if !w.addMissingReachableLocked(reachable) {
 			w.removeUnreachableLocked(reachable)
+			w.reorderResolvedLocked()
 			return
 		}
 	}
+}
+
+// reorderResolvedLocked puts FileOrder back into include order (depth first,
+// directives in file order, each file once), the order a freshly loaded tree
+// has: files that enter the tree later are otherwise appended at the end, and
+// everything that walks the files in order would depend on the edit history.
+func (w *Workspace) reorderResolvedLocked() {
+	if w.resolved == nil {
+		return
+	}
+	seen := map[string]bool{w.rootJournalPath: true}
+	order := make([]string, 0, len(w.resolved.FileOrder))
+	var visit func(path string)
+	visit = func(path string) {
+		for _, inc := range w.includeGraph[path] {
+			if seen[inc] {
+				continue
+			}
+			seen[inc] = true
+			if _, ok := w.resolved.Files[inc]; ok {
+				order = append(order, inc)
+			}
+			visit(inc)
+		}
+	}
+	visit(w.rootJournalPath)
+	for _, path := range w.resolved.FileOrder {
+		if !seen[path] {
+			order = append(order, path)
+		}
+	}
+	w.resolved.FileOrder = order
 }
 
 func (w *Workspace) computeReachableLocked() map[string]bool {
